@@ -460,6 +460,67 @@ func c04(r *report.Run) {
 	}); o.panicked {
 		rep("api", "Run-panics", "Run(nil, env)", o.msg, order, "")
 	}
+	// (c') sequences: a run that fails must leave the process usable. Each failing run (malformed dynamic pattern,
+	// failing function, index out of range, budget) is followed by an ordinary run of the same and of another program;
+	// the follow-up must RETURN (a lock or channel left behind by the failed run would block it for ever: the
+	// follow-up gets 120 s of wall-clock time for microseconds of work).
+	{
+		type step struct {
+			src string
+			set func(e *henv.Env)
+		}
+		bad := []step{
+			{"S matches T", func(e *henv.Env) { e.T = "a(b" }}, {`S matches (T + "(")`, func(e *henv.Env) {}}, {"any(SA, {# matches T})", func(e *henv.Env) { e.T = "[" }},
+			{"Boom(I)", func(e *henv.Env) {}}, {"A[I + 9]", func(e *henv.Env) {}}, {"map(A, {Boom(#)})", func(e *henv.Env) {}}, {"len(1..I) + len(0..2000000)", func(e *henv.Env) {}},
+			{"O.Next.Next.N", func(e *henv.Env) {}}, {"1 % (I - I)", func(e *henv.Env) {}}, {`S matches T and Boom(1) > 0`, func(e *henv.Env) { e.T = "a" }},
+		}
+		good := []step{
+			{"S matches T", func(e *henv.Env) { e.T = "a" }}, {"any(SA, {# matches T})", func(e *henv.Env) { e.T = "b" }}, {`S matches "a"`, func(e *henv.Env) {}},
+			{"Id(I) + len(A)", func(e *henv.Env) {}}, {"map(A, {# + I})", func(e *henv.Env) {}}, {"len(1..I)", func(e *henv.Env) {}},
+		}
+		var seqs int64
+		stuck := false
+		for bi, b := range bad {
+			for gi, g := range good {
+				if stuck {
+					break // whatever blocks the process blocks every later sequence too
+				}
+				done := make(chan string, 1)
+				go func() {
+					defer func() {
+						if p := recover(); p != nil {
+							done <- fmt.Sprint("PANIC ", p)
+						}
+					}()
+					for _, st := range []step{b, g} {
+						env := henv.MakeFull(henv.Val{})
+						st.set(env)
+						for _, viaEval := range []bool{false, true} {
+							if viaEval {
+								expr.Eval(st.src, *env)
+							} else if p, err := expr.Compile(st.src, expr.Env(henv.Env{})); err == nil {
+								expr.Run(p, *env)
+							}
+						}
+					}
+					done <- ""
+				}()
+				atomic.AddInt64(&evals, 4)
+				seqs++
+				select {
+				case msg := <-done:
+					if msg != "" {
+						rep("sequence", "run-panics-after-a-failed-run", b.src+" ; "+g.src, msg, order+int64(bi*10+gi), b.src)
+					}
+				case <-time.After(120 * time.Second):
+					rep("sequence", "run-never-returns-after-a-failed-run", b.src+" ; "+g.src, "the follow-up run did not return within 120 s", order+int64(bi*10+gi), b.src)
+					stuck = true
+				}
+			}
+		}
+		order += 1000
+		r.Set("failed_run_then_run_sequences", seqs)
+	}
 	// (d) stress shapes in a subprocess
 	stress := c04Stress(r, order+1)
 	r.Sample(map[string]interface{}{"bytes": "\"\\xff(", "through": "Parse, Eval, Compile+Run"})
